@@ -195,9 +195,20 @@ def go_build(cmd, race=False, timeout=1500):
     os.makedirs(os.path.join(BUILD, "bin"), exist_ok=True)
     out_bin = os.path.join(BUILD, "bin", cmd + ("_race" if race else ""))
     args = ["go", "build", "-tags", "verif"] + (["-race"] if race else []) + ["-o", out_bin, "./cmd/" + cmd]
-    if not os.path.exists(os.path.join(HARNESS, "go.sum")):
-        shutil.copy(os.path.join(REPO, "go.sum"), os.path.join(HARNESS, "go.sum"))
-    rc, out = sh(args, cwd=HARNESS, timeout=timeout, env=GOENV)
+    hdir = HARNESS
+    if os.path.realpath(REPO) != "/repo":
+        # checks run against a scratch worktree: build a copy of the harness
+        # module whose replace directive points there
+        tag = hashlib.sha1(os.path.realpath(REPO).encode()).hexdigest()[:10]
+        hdir = os.path.join(BUILD, "harness_" + tag)
+        shutil.rmtree(hdir, ignore_errors=True)
+        shutil.copytree(HARNESS, hdir)
+        gm = open(os.path.join(hdir, "go.mod")).read().replace("=> /repo", "=> " + os.path.realpath(REPO))
+        open(os.path.join(hdir, "go.mod"), "w").write(gm)
+        out_bin = os.path.join(BUILD, "bin", cmd + "_" + tag + ("_race" if race else ""))
+        args[args.index("-o") + 1] = out_bin
+    shutil.copy(os.path.join(REPO, "go.sum"), os.path.join(hdir, "go.sum"))
+    rc, out = sh(args, cwd=hdir, timeout=timeout, env=GOENV)
     return rc == 0, out, out_bin
 
 
